@@ -135,6 +135,19 @@ def run_property(prop, tier='quick', replay=None, quiet=False):
     try:
         units = getattr(mod, 'UNITS', None)
         tus, skipped = extract.load(tier, only_units=units)
+        # access specifiers are taken from the witness units: the repository's test units compile the headers with
+        # `#define private public`, which would make every internal helper look like a public entry point
+        access = {}
+        for tu in tus:
+            if '/witness/' in tu.unit:
+                for f in tu.fns:
+                    access.setdefault((f.skey, f.line), f.access)
+        for tu in tus:
+            if '/witness/' not in tu.unit:
+                for f in tu.fns:
+                    a = access.get((f.skey, f.line))
+                    if a is not None:
+                        f.access = a
         ctx = Ctx(prop, tier, tus, skipped)
         mod.check(ctx)
     except AnalysisBroken as e:
@@ -149,6 +162,7 @@ def run_property(prop, tier='quick', replay=None, quiet=False):
     if ctx is not None:
         for key, f in ctx.findings.items():
             key = key.replace(' ', '_')
+            f['key'] = key
             if key in known_p:
                 known_hits.append((key, f))
             else:
@@ -168,6 +182,25 @@ def run_property(prop, tier='quick', replay=None, quiet=False):
                 print('  note: ' + n)
     for key, f in known_hits:
         print('KNOWN-FINDING: property=%s %s [%s]' % (prop, known_p[key], key))
+    if replay:
+        # re-evaluate exactly one recorded finding on the current tree
+        try:
+            want = json.load(open(replay)).get('key', '').replace(' ', '_')
+        except Exception as e:
+            print('cannot read replay file %s: %s' % (replay, e))
+            return 2
+        hit = [(k, f) for k, f in violations + known_hits if k == want]
+        if hit:
+            k, f = hit[0]
+            print('REPRODUCED property=%s key=%s' % (prop, want))
+            print('  rule %s in %s (%s): %s' % (f['rule'], f['pattern'], f['where'], f['what']))
+            if f.get('detail'):
+                for ln in str(f['detail']).splitlines():
+                    print('    ' + ln)
+            print('VIOLATION property=%s replay=%s' % (prop, replay))
+            return 1
+        print('NOT-REPRODUCED property=%s key=%s (the rule instance holds on the current tree)' % (prop, want))
+        return 2 if broken else 0
     for key, f in violations:
         rp = os.path.join(outdir, sanitize(key) + '.json')
         with open(rp, 'w') as fh:
